@@ -96,7 +96,28 @@ def normalise(paths):
                     res.append(toks[i])
                     i += 1
                 toks = res
-        k = " ".join(toks)
+        # an acquire/release pair with nothing in between, of a lock that the path already acquired in the same
+        # mode while holding the same locks, adds no new blocking point (same held set, same wanted lock)
+        # (repeated until nothing changes: removing an inner pair can leave its outer pair empty)
+        while True:
+            held, seen, res, i = [], set(), [], 0
+            while i < len(toks):
+                kind, name, mode = toks[i].split(":")
+                if kind == "A":
+                    key = (tuple(sorted(held)), name, mode)
+                    if i + 1 < len(toks) and toks[i + 1] == "R:%s:%s" % (name, mode) and key in seen:
+                        i += 2
+                        continue
+                    seen.add(key)
+                    held.append(name + ":" + mode)
+                elif name + ":" + mode in held:
+                    held.remove(name + ":" + mode)
+                res.append(toks[i])
+                i += 1
+            if res == toks:
+                break
+            toks = res
+        k = " ".join(res)
         out[k] = out.get(k, 0) + n
     return out
 
